@@ -224,7 +224,9 @@ class Net(nn.Module):
                 for j, m in enumerate(st['members']):
                     ms.append(x if m == 'id' else self.blocks[f's{i}m{j}'](x))
                 # the channel axis spelled as 1 or, equivalently, with a negative index (-2 in 1D, -3 in 2D)
-                if st.get('catkw'):
+                if st.get('catkw') == 'axis':    # torch.cat accepts `axis` as an alias of `dim`
+                    x = torch.cat(ms, axis=1)
+                elif st.get('catkw'):
                     x = torch.cat(tensors=ms, dim=1)
                 else:
                     x = torch.cat(ms, dim=-(self.prog['dim'] + 1) if st.get('negc') else 1)
@@ -260,6 +262,10 @@ class Net(nn.Module):
                 x = torch.flatten(x, start_dim=1, end_dim=self.prog['dim'] + 1)
             elif fl == 'methodend':
                 x = x.flatten(1, -1)
+            elif fl == 'negstart':      # the channel axis spelled with a negative index (-2 in 1D, -3 in 2D)
+                x = torch.flatten(x, -(self.prog['dim'] + 1))
+            elif fl == 'negstartm':
+                x = x.flatten(start_dim=-(self.prog['dim'] + 1))
             else:
                 x = x.flatten(1)
             return self._post(self.head['fc'](x))
@@ -274,6 +280,8 @@ class Net(nn.Module):
                 x = x.flatten(1)
             elif fl == 'squeeze':
                 x = x.squeeze(-1) if self.prog['dim'] == 1 else x.squeeze(-1).squeeze(-1)
+            elif fl == 'squeezepos':    # the same axes spelled with positive indices
+                x = x.squeeze(2) if self.prog['dim'] == 1 else x.squeeze(3).squeeze(2)
             x = self.head['fc1'](x)
             if 'bn' in self.head:
                 x = self.head['bn'](x)
@@ -451,8 +459,8 @@ HEADS = [{'kind': 'flatlin'}, {'kind': 'gaplin'}, {'kind': 'fcn'}]
 
 CONV_OPTS = [{'bias': False}, {'bn': True}, {'bn': True, 'bias': False}, {'bn': True, 'bn_eps': 0.05}, {'pad': 'causalv'}, {'pad': 'causalv', 'k': 5}, {'s': 2}, {'k': 5}, {'k': 1}, {'k': 4}, {'d': 2}, {'pad': 'sym'}, {'pad': 'same'},
              {'act': 'silu'}, {'act': 'frelu'}, {'act': None}, {'act': 'relu6'}, {'cout': 4}]
-HEAD_OPTS = {'flatlin': [{'flat': 'torch'}, {'flat': 'method'}, {'flat': 'torchend'}, {'flat': 'kwend'}, {'flat': 'methodend'}, {'bias': False}, {'post': 'frelu'}, {'post': 'lsm'}],
-             'gaplin': [{'flat': 'torch'}, {'flat': 'method'}, {'flat': 'squeeze'}, {'bn': False}, {'hbias': False}, {'post': 'frelu'}, {'bn_eps': 0.05}],
+HEAD_OPTS = {'flatlin': [{'flat': 'torch'}, {'flat': 'method'}, {'flat': 'torchend'}, {'flat': 'kwend'}, {'flat': 'methodend'}, {'flat': 'negstart'}, {'flat': 'negstartm'}, {'bias': False}, {'post': 'frelu'}, {'post': 'lsm'}],
+             'gaplin': [{'flat': 'torch'}, {'flat': 'method'}, {'flat': 'squeeze'}, {'flat': 'squeezepos'}, {'bn': False}, {'hbias': False}, {'post': 'frelu'}, {'bn_eps': 0.05}],
              'fcn': [{'post': 'relu'}, {'post': 'gap'}, {'post': 'frelu'}, {'post': 'lsm'}],
              'fcnadd': [], 'flatadd': [], 'flatcat': []}
 POOL_OPTS = [{'kind': 'avg'}, {'kind': 'adaptive'}]
@@ -573,6 +581,9 @@ def option_deviations(prog, with_fold=True):
             out.append(q)
             q = _copy(prog)
             q['stages'][i]['catkw'] = True
+            out.append(q)
+            q = _copy(prog)
+            q['stages'][i]['catkw'] = 'axis'
             out.append(q)
         elif s['op'] == 'timecat':
             q = _copy(prog)
